@@ -46,7 +46,12 @@ pub trait HttpDistance {
             let obs_header = &observed[obs_idx];
             let sig_header = &signature[sig_idx];
 
-            if obs_header.name == sig_header.name && obs_header.value == sig_header.value {
+            // p0f semantics: a listed value is a substring the observed value has to contain
+            let value_matches = match (&obs_header.value, &sig_header.value) {
+                (Some(observed), Some(expected)) => observed.contains(expected.as_str()),
+                (observed, expected) => observed == expected,
+            };
+            if obs_header.name == sig_header.name && value_matches {
                 obs_idx = obs_idx.saturating_add(1);
                 sig_idx = sig_idx.saturating_add(1);
             } else if obs_header.name == sig_header.name {
